@@ -1,4 +1,5 @@
 //! C17 harness, thorough corpus (`corpus_b.rs`): same runner as h_attr.
+extern crate alloc; // `alloc::boxed::Box::pin` spellings of the corpus
 #[path = "../support.rs"]
 mod support;
 #[path = "../corpus_b.rs"]
